@@ -17,3 +17,5 @@ mod c09;
 mod c11;
 #[cfg(kani)]
 mod c12;
+#[cfg(kani)]
+mod probe;
